@@ -1,6 +1,6 @@
 (* Property C10 — sample result coding. Statements only; proofs live in Proofs/ and Gen/. *)
 From Coq Require Import List NArith ZArith Bool.
-From PV Require Import Lib.Table Model.Sample Model.GrpcStatus Model.Shoot Proofs.SampleProofs Proofs.ShootProofs Gen.GrpcStatusGen Gen.GrpcStatus_bridge Gen.ConstGen Gen.Const_bridge.
+From PV Require Import Lib.Table Model.Sample Model.GrpcStatus Model.Shoot Model.ShootEvents Proofs.SampleProofs Proofs.ShootProofs Proofs.ShootEventsProofs Gen.GrpcStatusGen Gen.GrpcStatus_bridge Gen.ConstGen Gen.Const_bridge.
 Import ListNotations.
 Local Open Scope N_scope.
 
@@ -172,6 +172,72 @@ Theorem C10_grpc_one_sample : forall tag c,
   (forall st, gcall_code (GCalled st) = doc_code st).
 Proof. intros; split; [reflexivity|intros st; apply grpc_code_is_documented]. Qed.
 Print Assumptions C10_grpc_one_sample.
+
+(* ---------------------------------------------------------------------------------------
+   The sample is complete when it is handed over (Model/ShootEvents.v).  A sample is a mutable
+   struct; Aggregator.Report passes the pointer to the aggregator, which reads it whenever it
+   likes afterwards (phout: on another goroutine, then recycles the struct).  The shots as
+   sequences of operations on their samples:
+   --------------------------------------------------------------------------------------- *)
+
+(* Any trace that never writes to a sample between its Report and the next Acquire: at every
+   moment - after every prefix p of the trace - every sample handed over so far has the value
+   it had at its Report (no aggregator read can see anything else; nothing is written late). *)
+Theorem C10_handoff_discipline : forall tr,
+  handoff_ok false tr = true ->
+  forall p q, tr = p ++ q -> at_end p = at_report p /\ late_writes p = 0%nat.
+Proof. exact handoff_stable. Qed.
+Print Assumptions C10_handoff_discipline.
+
+(* BaseGun.Shoot, every path (hook, invalid ammo, all tagging settings, request failed / body
+   read failed / complete exchange): the operations keep the discipline; the value at the
+   moment of Report is the value of base_shoot, i.e. (C10_one_sample) the one sample base_spec
+   describes - net code and proto code included - and it is still that at any later moment. *)
+Theorem C10_sample_complete_at_report : forall cfg h invalid id tag path x,
+  handoff_ok false (base_shoot_ev cfg h invalid id tag path x) = true /\
+  at_report (base_shoot_ev cfg h invalid id tag path x) = base_shoot cfg h invalid id tag path x /\
+  (forall p q, base_shoot_ev cfg h invalid id tag path x = p ++ q ->
+     at_end p = at_report p /\ late_writes p = 0%nat) /\
+  (h <> HFail ->
+     at_report (base_shoot_ev cfg h invalid id tag path x) = [base_spec cfg invalid id tag path x] /\
+     at_end (base_shoot_ev cfg h invalid id tag path x) = [base_spec cfg invalid id tag path x]).
+Proof.
+  intros. split; [apply base_ev_handoff|]. split; [apply base_ev_at_report|].
+  split; [apply base_ev_final|apply base_ev_spec].
+Qed.
+Print Assumptions C10_sample_complete_at_report.
+
+(* The same for the scenario guns and the gRPC gun: each step's sample is complete at its
+   Report (completed step: SetProtoCode, Report; failing HTTP step: AddTag, SetProtoCode(0),
+   SetErr, Report; gRPC: the deferred SetProtoCode(code), Report). *)
+Theorem C10_scenario_complete_at_report : forall name hsteps gsteps tag c,
+  (handoff_ok false (hscen_ev name hsteps) = true /\
+   at_report (hscen_ev name hsteps) = hscen_spec name hsteps /\ at_end (hscen_ev name hsteps) = hscen_spec name hsteps) /\
+  (handoff_ok false (gscen_ev name gsteps) = true /\
+   at_report (gscen_ev name gsteps) = gscen_spec name gsteps /\ at_end (gscen_ev name gsteps) = gscen_spec name gsteps) /\
+  (handoff_ok false (grpc_ev tag c) = true /\
+   at_report (grpc_ev tag c) = grpc_shoot tag c /\ at_end (grpc_ev tag c) = grpc_shoot tag c).
+Proof.
+  intros. split; [|split].
+  - split; [apply hscen_ev_handoff|]. rewrite <- hscen_shoot_spec. apply hscen_ev_at_report.
+  - split; [apply gscen_ev_handoff|]. rewrite <- gscen_shoot_spec. apply gscen_ev_at_report.
+  - apply grpc_ev_ok.
+Qed.
+Print Assumptions C10_scenario_complete_at_report.
+
+(* non-vacuity, both ways: the order of base.go keeps the discipline (a refused exchange is
+   handed over with net code 111); storing the error AFTER the hand-over does not - the
+   aggregator may see net code 0 for the failed exchange, and the sample is written to late *)
+Example C10_handoff_example :
+  let cfg := Build_autotag_cfg false 2 true in
+  let e := EOp (ESys (EErrno 111)) in
+  base_shoot_ev cfg HNone false 7 [116] [47] (XErr false e) = [SvAcquire [116] 7; SvSetErr false e; SvReport] /\
+  at_report [SvAcquire [116] 7; SvSetErr false e; SvReport] = [mkSample [116] 0 111 7] /\
+  handoff_ok false [SvAcquire [116] 7; SvReport; SvSetErr false e] = false /\
+  at_report [SvAcquire [116] 7; SvReport; SvSetErr false e] = [mkSample [116] 0 0 7] /\
+  at_end [SvAcquire [116] 7; SvReport; SvSetErr false e] = [mkSample [116] 0 111 7] /\
+  late_writes [SvAcquire [116] 7; SvReport; SvSetErr false e] = 1%nat.
+Proof. repeat split. Qed.
 
 (* non-vacuity *)
 Example C10_shoot_example :
